@@ -54,12 +54,11 @@ void CommonVolatile(volatile A& a, T x, T y) {
   a.store(x);
   (void)a.load();
   (void)a.exchange(x);
-#if YACLIB_FAULT != 2  // the fiber volatile CAS bodies call a non-volatile helper and are ill-formed when used
+  // (well-formed since the fix of F15; before it the fiber volatile CAS bodies called a non-volatile helper)
   (void)a.compare_exchange_weak(y, x);
   (void)a.compare_exchange_weak(y, x, kO, kO);
   (void)a.compare_exchange_strong(y, x);
   (void)a.compare_exchange_strong(y, x, kO, kO);
-#endif
   (void)a.is_lock_free();
 }
 
@@ -83,6 +82,15 @@ void ArithVolatile(volatile A& a, D d) {
 
 template <typename A>
 void IncDec(A& a) {
+  (void)++a;
+  (void)a++;
+  (void)--a;
+  (void)a--;
+}
+
+// (well-formed since the fix of F15: the wrapper cast *this to a non-volatile Impl&)
+template <typename A>
+void IncDecVolatile(volatile A& a) {
   (void)++a;
   (void)a++;
   (void)--a;
@@ -120,6 +128,7 @@ void Integral() {
   Arith<decltype(a), T, T>(a, T{1});
   ArithVolatile<decltype(a), T, T>(a, T{1});
   IncDec(a);
+  IncDecVolatile(a);
   Bits(a, T{1});
   BitsVolatile(a, T{1});
 }
@@ -149,6 +158,7 @@ void Pointer() {
   Arith<decltype(a), int*, std::ptrdiff_t>(a, std::ptrdiff_t{1});
   ArithVolatile<decltype(a), int*, std::ptrdiff_t>(a, std::ptrdiff_t{1});
   IncDec(a);
+  IncDecVolatile(a);
 }
 
 void Flag() {
